@@ -1141,11 +1141,13 @@ long ov_bitrate(OggVorbis_File *vf,int i){
      * gcc 3.x on x86 miscompiled this at optimisation level 2 and above,
      * so this is slightly transformed to make it work.
      */
+    if(ov_time_total(vf,-1)<=0.)return(OV_FALSE); /* no audio: no rate */
     br = bits/ov_time_total(vf,-1);
     return(rint(br));
   }else{
     if(vf->seekable){
       /* return the actual bitrate */
+      if(ov_time_total(vf,i)<=0.)return(OV_FALSE); /* a link with no audio */
       return(rint((vf->offsets[i+1]-vf->dataoffsets[i])*8/ov_time_total(vf,i)));
     }else{
       /* return nominal if set */
